@@ -273,6 +273,16 @@ structure WakeD where
   s : Mutiny.Wake.St
   /-- streams whose task is inside a poll -/
   polling : List Nat
+  /-- `gran=mid`: the publication CAS (`am.p.publish`) and the length measurement (`am.p.len`) of the two-phase ring are yield
+      points of the recorded run; otherwise the driver performs them right at the call -/
+  mid : Bool := false
+
+/-- the channel's queue is the two-phase ring `AtomicMove` -/
+def wakeTwoPhase (r : Mutiny.Wake.Rule) : Bool := r.twoPhase
+
+/-- at coarse granularity a call runs through its publication and its length measurement at once -/
+def wakeThrough (d : WakeD) (t : Nat) : WakeD :=
+  if d.mid then d else { d with s := Mutiny.Wake.stepP (Mutiny.Wake.stepP d.s t) t }
 
 open Mutiny in
 def wakeMachine : Machine WakeD where
@@ -281,30 +291,45 @@ def wakeMachine : Machine WakeD where
     let idle := s.thr t == .idle
     let nat (x : String) := x.toNat!
     match op, args with
-    | "send", [v]     => if idle then some { d with s := Wake.apply s (.send t (nat v)) } else none
-    | "sendwith", [v] => if idle then some { d with s := Wake.apply s (.sendWith t (nat v)) } else none
+    | "send", [v]     =>
+        if !idle then none
+        else if wakeTwoPhase s.rule then some (wakeThrough { d with s := Wake.apply s (.claim t (nat v)) } t)
+        else some { d with s := Wake.apply s (.send t (nat v)) }
+    | "sendwith", [v] =>
+        if !idle then none
+        else if wakeTwoPhase s.rule then some (wakeThrough { d with s := Wake.apply s (.claim t (nat v)) } t)
+        else some { d with s := Wake.apply s (.sendWith t (nat v)) }
     | "sendrsv", [v]  =>
         -- the Multi ogre_arc channels publish a reserved slot through the ordinary fan-out (their own wake rule)
         if idle then some { d with s := Wake.apply s (if s.rule == .m1 || s.rule == .m2 then .send t (nat v) else .sendRsv t (nat v)) } else none
     | "asyncmov", [v] => if idle then some { d with s := Wake.apply s (.asyncMov t (nat v)) } else none
     | "asynczc", [v]  => if idle then some { d with s := Wake.apply s (.asyncZc t (nat v)) } else none
     | "resume", []    => match s.thr t with
-                         | .aSusp _ _ => match s.resv with
-                                         | (t', _) :: _ => if t' == t then some { d with s := Wake.apply s (.resume t) } else none
-                                         | [] => none
-                         | .zSusp _ => some { d with s := Wake.apply s (.resume t) }
+                         | .aSusp _ _ =>
+                             if s.rule == .atomic then
+                               -- the setter completed: publication (in claim order) and length measurement follow
+                               if d.mid then some { d with s := Wake.apply s (.resume t) }
+                               else match s.resv with
+                                    | (t', _) :: _ => if t' == t then some (wakeThrough { d with s := Wake.apply s (.resume t) } t) else none
+                                    | [] => none
+                             else match s.resv with
+                                  | (t', _) :: _ => if t' == t then some { d with s := Wake.apply s (.resume t) } else none
+                                  | [] => none
+                         | .zSusp _ =>
+                             if wakeTwoPhase s.rule then some (wakeThrough { d with s := Wake.apply s (.resume t) } t)
+                             else some { d with s := Wake.apply s (.resume t) }
                          | _ => none
     | "cancel", [j]   => if idle && nat j < s.k then some { d with s := Wake.apply s (.cancel t (nat j)) } else none
     | "release", []   => if !s.zc then some d else if s.held > 0 then some { d with s := Wake.apply s .release } else none
     | "drop", [j]     =>
         let j := nat j
-        if t == 100 + j && j < s.k && s.sloc j == .ended && !d.polling.contains j then some { s := Wake.apply s (.dropS j), polling := j :: d.polling } else none
+        if t == 100 + j && j < s.k && s.sloc j == .ended && !d.polling.contains j then some { d with s := Wake.apply s (.dropS j), polling := j :: d.polling } else none
     | "poll", [j, tk] =>
         let j := nat j
         if t != 100 + j || j >= s.k || d.polling.contains j then none else
         match s.sloc j with
-        | .ready => if nat tk == s.tok j then some { s := Wake.apply s (.poll j none), polling := j :: d.polling } else none
-        | .parked => some { s := Wake.apply s (.poll j (if nat tk == s.tok j then none else some (nat tk))), polling := j :: d.polling }
+        | .ready => if nat tk == s.tok j then some { d with s := Wake.apply s (.poll j none), polling := j :: d.polling } else none
+        | .parked => some { d with s := Wake.apply s (.poll j (if nat tk == s.tok j then none else some (nat tk))), polling := j :: d.polling }
         | _ => none
     | _, _ => none
   tag d t := if t ≥ 100 then Wake.tagOfS (t - 100) (d.s.sloc (t - 100)) else Wake.tagOfP (d.s.thr t)
@@ -497,7 +522,8 @@ def mkMachine (kv : List (String × String)) : Option AnyMachine :=
         | some "m2" => .m2
         | some "m1" => .m1
         | _ => .fs
-      some { σ := _, m := wakeMachine, s := { s := Mutiny.Wake.init n mx k rule ((lookup kv "zc") == some "1"), polling := [] } }
+      some { σ := _, m := wakeMachine, s := { s := Mutiny.Wake.init n mx k rule ((lookup kv "zc") == some "1"), polling := [],
+                                              mid := (lookup kv "gran") == some "mid" } }
   | some "handles" => some { σ := _, m := handlesMachine, s := Mutiny.Handles.init n }
   | _ => none
 
